@@ -298,7 +298,7 @@ def storedSt (s : St) (i : Nat) (c : Call) (val err : Nat) (hasRel : Bool) (p : 
       resolved := true, value := val, verr := err
       rel := if hasRel then some i else none
       cur := some i
-      targetErr := if s.tgt then err else s.targetErr
+      targetErr := if s.tgtE then err else s.targetErr
       target := if err = 0 ∧ s.tgt then val else s.target
       th := tellAll s.th (some i)
       pend := p }
@@ -369,7 +369,7 @@ theorem inv_store_fresh (s : St) (i : Nat) (c : Call) (val err : Nat) (hasRel : 
     · intro _; rw [← hc']; exact hcrel
   · intro h0; simp [setCall] at h0
   · simp only [setCall]; by_cases ht : s.tgt = true <;> by_cases he : err = 0 <;> simp [ht, he, htv]
-  · simp only [setCall]; by_cases ht : s.tgt = true <;> simp [ht, hte]
+  · simp only [setCall]; by_cases ht : s.tgtE = true <;> simp [ht, hte]
   · intro j x hx hrel
     rcases hget j x hx with ⟨hj, hx⟩ | ⟨_, hx⟩
     · rw [hx, ← hc'] at hrel; simp [hcrel] at hrel
